@@ -165,6 +165,18 @@ class Executor:
             st.ghost["invdone"] = done | {key}
             for c in self.types.concrete_subclasses(td.cls):
                 clauses = [cl for a in c.mro for cl in self.reg.object_invariants.get(a.name, [])]
+                # declared field types are part of every object's invariant (one level deep)
+                ftyp = []
+                if c.is_dataclass:
+                    for f in c.all_fields():
+                        if f.initvar:
+                            continue
+                        ftd = self.field_td(self.repo.cls(f.owner), f)
+                        if isinstance(ftd, TRefT) and ftd.cls is not None and not self.is_heap_attr(self.repo.cls(f.owner), f.name, "field", self.repo.cls(f.owner)):
+                            fz = self.types.attr_symbol(self.repo.cls(f.owner), f.name, ftd)(z)
+                            ftyp.extend(self.types.typing_fact(fz, ftd))
+                if ftyp:
+                    facts.append(z3.Implies(smt.typ(z) == self.types.cid(c), z3.And(*ftyp)))
                 if not clauses:
                     continue
                 obj = SV(TRefT(c), z)
